@@ -49,6 +49,10 @@ pub(crate) struct EmbeddedReadHandle<T: TypeConfig> {
     sm: Arc<T::SM>,
     lease: Arc<ReadLease>,
     pub(crate) cmd_tx: mpsc::Sender<d_engine_core::ClientCmd>,
+    /// `read_consistency.allow_client_override` of the node. When false the policy the caller
+    /// names must not be honoured, so the local fast paths are off and every read goes to the
+    /// Raft loop, which serves it under the server's default policy.
+    client_override_allowed: bool,
     _phantom: PhantomData<fn() -> T>,
 }
 
@@ -58,6 +62,7 @@ impl<T: TypeConfig> Clone for EmbeddedReadHandle<T> {
             sm: Arc::clone(&self.sm),
             lease: Arc::clone(&self.lease),
             cmd_tx: self.cmd_tx.clone(),
+            client_override_allowed: self.client_override_allowed,
             _phantom: PhantomData,
         }
     }
@@ -73,8 +78,18 @@ impl<T: TypeConfig> EmbeddedReadHandle<T> {
             sm,
             lease,
             cmd_tx,
+            client_override_allowed: true,
             _phantom: PhantomData,
         }
+    }
+
+    /// Tell the handle whether the server honours client-chosen read policies.
+    pub(crate) fn with_client_override(
+        mut self,
+        allowed: bool,
+    ) -> Self {
+        self.client_override_allowed = allowed;
+        self
     }
 
     /// Single-key read.  Convenience wrapper around [`Self::get_batch`].
@@ -104,6 +119,8 @@ impl<T: TypeConfig> EmbeddedReadHandle<T> {
         timeout: Duration,
     ) -> ClientApiResult<Vec<Option<Bytes>>> {
         match consistency {
+            // overrides disabled: the Raft loop decides the policy (server default)
+            _ if !self.client_override_allowed => {}
             ReadConsistencyPolicy::EventualConsistency => {
                 if let Ok(values) = self.sm.get_multi(keys) {
                     return Ok(values);
